@@ -17,7 +17,7 @@ CHECKS = {
  "C06": ("fault_enumeration", "3 C06 and appendix B", "full-stack deterministic simulation: enumerated crash-point x exit-kind x extension matrix, seeded schedules per cell, failure-table oracle",
          "every cell of the (party x protocol point x exit kind x 0-2 extensions) matrix is executed under many seeded schedules; the oracle is the failure table derived from the property statement (status, body provenance, first fault, teardown, recovery); cells enumerated completely, schedules sampled"),
  "C09": ("fault_enumeration", "3 C09", "full-stack deterministic simulation on the fake clock: enumerated trigger x process-behaviour matrix, timestamped supervisor-log oracle",
-         "all 227 consistent cells of trigger x runtime behaviour x extension behaviours are executed with tape-drawn budgets, TERM delays around the 30% mark, kill and event latencies and lock-grant orders; the oracle checks order and exact fake-clock instants of Terminate/Kill requests, SHUTDOWN event count/reason/deadline and the return time of the operation; cells enumerated completely, continuous parameters sampled"),
+         "all 240 consistent cells of trigger x runtime behaviour x extension behaviours are executed with tape-drawn budgets, TERM delays around the 30% mark, kill and event latencies and lock-grant orders; the oracle checks order and exact fake-clock instants of Terminate/Kill requests, SHUTDOWN event count/reason/deadline and the return time of the operation; cells enumerated completely, continuous parameters sampled"),
  "C01": ("exploration", "3 C01", "full-stack deterministic simulation: seeded payload/size/history generator over invocation sequences, byte oracle at the runtime and at the caller",
          "seeded search over payload classes and sizes up to the limit, client contexts and histories in which earlier invocations succeeded, returned error bodies, timed out, crashed or were oversized; every delivery and every outcome is compared byte for byte, ids must be fresh, ARN/context/deadline exact; sampled"),
  "C14": ("exploration", "3 C14", "full-stack deterministic simulation: sizes around 6 MiB+100 at every position of an invocation sequence, byte and status oracle",
@@ -46,6 +46,8 @@ CHECKS = {
          "seeded search over the order of the operator's restore request(s) and the runtime's restore poll, hook outcome (completes, restore/error, init/error, overruns the hook timeout by 1 ms .. 2 s, exits, never polls), reported error types, and interleaved credentials requests with right, wrong and missing tokens; decides result, step and exact fake-clock instant of every restore, every credentials response and the absence of key variables from the runtime's environment; sampled"),
 }
 
+RACE = {"C02", "C03", "C04", "C06", "C09", "C10", "C11", "C12", "C13", "C17", "C18"}
+
 NA = [
  ("C16", "pure function of configuration (environment layering); no schedule, clock, fault or interleaving for a simulator to decide (DESIGN.md 4)"),
  ("C20", "pure functions of one request's header strings and body (sanitisation/cropping); no concurrency, time or fault participates (DESIGN.md 4)"),
@@ -55,6 +57,9 @@ def main():
     checks = []
     for pid in sorted(CHECKS):
         level, ref, tech, text = CHECKS[pid]
+        if pid in RACE:
+            tech += "; followed by a race pass: the same seeded scenarios on a worker built with the race detector, the simulator's own synchronisation hidden from it and the edges of the simulated locks declared (DESIGN 11.12)"
+            text += " After the main pass a race pass (1 500 runs quick, 40 000 thorough) runs the same generators under the race detector; two unsynchronised accesses of emulator code that both lie in the files this property is anchored in are a violation (rule data-race)."
         checks.append({
             "property_id": pid,
             "quick_cmd": f"/verif/bin/verif check {pid} --tier quick",
